@@ -99,7 +99,7 @@ func Array2D.Fill
   ensures[cells] forall i, j :: {mark(i), mark(j)} mark(i) && mark(j) && 0 <= i && i < a.width && 0 <= j && j < a.height ==> a.getUnchecked(i, j) == ite(min(x1, x2) <= i && i <= max(x1, x2) && min(y1, y2) <= j && j <= max(y1, y2), value, old(a.getUnchecked(i, j)))
   assigns elems(a.slice)
   loop 0 invariant mark(y1) && y1 + 1 <= y && y <= y2 + 1 && same(firstRow, a.slice[x1 + y1*a.width : 1 + x2 + y1*a.width])
-  loop 0 invariant forall i :: 0 <= i && i <= x2 - x1 ==> firstRow[i] == value
+  loop 0 invariant forall i :: {mark(i)} mark(i) && 0 <= i && i <= x2 - x1 ==> firstRow[i] == value
   loop 0 invariant forall i, j :: {mark(i), mark(j)} mark(i) && mark(j) && 0 <= i && i < a.width && 0 <= j && j < a.height ==> a.getUnchecked(i, j) == ite(x1 <= i && i <= x2 && y1 <= j && j < y, value, old(a.getUnchecked(i, j)))
 
 func Array2D.Clone
